@@ -12,6 +12,7 @@ package main
 
 import (
 	"fmt"
+	"net"
 	"regexp"
 	"regexp/syntax"
 	"unicode"
@@ -254,3 +255,5 @@ func init() {
 		return p.e.strOf(ro.re.ReplaceAllString(src, repl))
 	}
 }
+
+func netIPString(b []byte) string { return net.IP(b).String() }
